@@ -11,6 +11,10 @@ use lightmotif::scores::StripedScores;
 use lightmotif::seq::{EncodedSequence, StripedSequence, SymbolCount};
 
 use crate::rng::Rng;
+use lightmotif::pli::dispatch::Dispatch;
+
+/// every arm of the runtime dispatcher, driven on this host through the `verif-hooks` override
+fn arms() -> Vec<(&'static str, Dispatch)> { vec![("dispatch[generic]", Dispatch::Generic), ("dispatch[sse2]", Dispatch::Sse2), ("dispatch[avx2]", Dispatch::Avx2)] }
 
 fn panic_loc() -> String { crate::LAST_PANIC.lock().map(|g| g.clone()).unwrap_or_default() }
 fn jesc(s: &str) -> String { s.replace('\\', "\\\\").replace('"', "'") }
@@ -76,6 +80,7 @@ where
     check!("sse2/32", Pipeline::<A, _>::sse2().unwrap().score(&pssm, &st32).unstripe().to_vec());
     if let Ok(p) = Pipeline::<A, _>::avx2() { check!("avx2/32", p.score(&pssm, &st32).unstripe().to_vec()); }
     check!("dispatch/32", Pipeline::<A, _>::dispatch().score(&pssm, &st32).unstripe().to_vec());
+    for (nm, arm) in arms() { check!(nm, Pipeline::<A, Dispatch>::with_backend(arm.clone()).score(&pssm, &st32).unstripe().to_vec()); }
     // row sub-range through score_rows_into (dispatch): values of rows [a, b) must match
     let rows = st32.matrix().rows() - st32.wrap();
     if rows > 0 && l >= m {
@@ -161,6 +166,7 @@ pub fn sweep_c04(tier: &str, seed: u64) -> (usize, Vec<String>) {
             check_striped("generic/4 fresh", &Stripe::<Dna, lightmotif::num::U4>::stripe(&g, &s[..]), &s, &case, &mut f);
             let d = Pipeline::<Dna, _>::dispatch();
             check_striped("dispatch/32 fresh", &d.stripe(&s[..]), &s, &case, &mut f);
+            for (nm, arm) in arms() { check_striped(nm, &Pipeline::<Dna, Dispatch>::with_backend(arm).stripe(&s[..]), &s, &case, &mut f); }
             g.stripe_into(&s[..], &mut buf_g); check_striped("generic/32 reused", &buf_g, &s, &case, &mut f);
             d.stripe_into(&s[..], &mut buf_d); check_striped("dispatch/32 reused", &buf_d, &s, &case, &mut f);
             if let Ok(a) = Pipeline::<Dna, _>::avx2() {
@@ -213,6 +219,7 @@ fn c05_alpha<A: Alphabet>(rng: &mut Rng, tier: &str, fails: &mut Vec<String>, n:
             chk!("sse2", Pipeline::<A, _>::sse2().unwrap().encode(&inp));
             if let Ok(p) = Pipeline::<A, _>::avx2() { chk!("avx2", p.encode(&inp)); }
             chk!("dispatch", Pipeline::<A, _>::dispatch().encode(&inp));
+            for (nm, arm) in arms() { chk!(nm, Pipeline::<A, Dispatch>::with_backend(arm.clone()).encode(&inp)); }
             chk!("EncodedSequence::encode", EncodedSequence::<A>::encode(&inp));
             if fails.len() > 3 { return; }
         }
@@ -265,6 +272,7 @@ pub fn sweep_c07(tier: &str, seed: u64) -> (usize, Vec<String>) {
         chkf!("sse2", Pipeline::<Dna, _>::sse2().unwrap());
         if let Ok(p) = Pipeline::<Dna, _>::avx2() { chkf!("avx2", p); }
         chkf!("dispatch", Pipeline::<Dna, _>::dispatch());
+        for (nm, arm) in arms() { chkf!(nm, Pipeline::<Dna, Dispatch>::with_backend(arm)); }
         n += 1;
         if let Ok((m, am)) = catch_unwind(AssertUnwindSafe(|| (sc.max(), sc.argmax()))) {
             if nrows > 0 { if m != Some(best) { fails.push(fail("scores_max", format!("StripedScores::max = {:?}, largest cell {}", m, best), case.clone())); }
@@ -293,6 +301,7 @@ pub fn sweep_c07(tier: &str, seed: u64) -> (usize, Vec<String>) {
         chk8!("sse2", Pipeline::<Dna, _>::sse2().unwrap());
         if let Ok(p) = Pipeline::<Dna, _>::avx2() { chk8!("avx2", p); }
         chk8!("dispatch", Pipeline::<Dna, _>::dispatch());
+        for (nm, arm) in arms() { chk8!(nm, Pipeline::<Dna, Dispatch>::with_backend(arm)); }
         if fails.len() > 6 { return (n, fails); }
     } }
     (n, fails)
@@ -325,20 +334,24 @@ pub fn sweep_c08(tier: &str, seed: u64) -> (usize, Vec<String>) {
         // reference: saturated byte sums, and the byte image of the exact score
         let dcell = |j: usize, k: usize| dm.matrix()[j][k] as u32;
         let want: Vec<u8> = (0..=l - m).map(|i| (0..m).map(|j| dcell(j, s[i + j].as_index())).sum::<u32>().min(255) as u8).collect();
-        for (name, which) in [("avx2", 0), ("dispatch", 1), ("generic", 2)] {
+        for (name, which) in [("avx2", 0), ("dispatch", 1), ("generic", 2), ("dispatch[generic]", 3), ("dispatch[sse2]", 4), ("dispatch[avx2]", 5)] {
             if which == 0 && Pipeline::<Dna, lightmotif::pli::platform::Avx2>::avx2().is_err() { continue; }
             n += 1;
             let r = catch_unwind(AssertUnwindSafe(|| -> Vec<u8> { match which {
                 0 => Pipeline::<Dna, _>::avx2().unwrap().score(&dm, &st).unstripe().to_vec(),
                 1 => Pipeline::<Dna, _>::dispatch().score(&dm, &st).unstripe().to_vec(),
-                _ => Pipeline::<Dna, _>::generic().score(&dm, &st).unstripe().to_vec(),
+                2 => Pipeline::<Dna, _>::generic().score(&dm, &st).unstripe().to_vec(),
+                3 => Pipeline::<Dna, Dispatch>::with_backend(Dispatch::Generic).score(&dm, &st).unstripe().to_vec(),
+                4 => Pipeline::<Dna, Dispatch>::with_backend(Dispatch::Sse2).score(&dm, &st).unstripe().to_vec(),
+                _ => Pipeline::<Dna, Dispatch>::with_backend(Dispatch::Avx2).score(&dm, &st).unstripe().to_vec(),
             } }));
             match r {
                 Err(_) => {
                     // D5 signature: the generic kernel uses a plain `+=` on u8; it overflows exactly when some window's
                     // byte sum exceeds 255. Anything else (a panic although no sum exceeds 255, or on another backend) is new.
                     let over = (0..=l - m).any(|i| (0..m).map(|j| dcell(j, s[i + j].as_index())).sum::<u32>() > 255);
-                    let unit = if which == 2 && over { "pli_score_u8_generic_overflow" } else { "pli_score_u8" };
+                    // arms 2, 3, 4 all run the generic (non-saturating) u8 kernel
+                    let unit = if (which == 2 || which == 3 || which == 4) && over { "pli_score_u8_generic_overflow" } else { "pli_score_u8" };
                     fails.push(fail(unit, format!("{}: panic at {} (u8 window sum > 255: {})", name, panic_loc(), over), case.clone()))
                 }
                 Ok(v) => {
@@ -470,5 +483,67 @@ pub fn sweep_c19(tier: &str, seed: u64) -> (usize, Vec<String>) {
     model!(u8, U1, |x: usize| x as u8); model!(u8, U32, |x: usize| x as u8); model!(u8, U43, |x: usize| x as u8);
     model!(u32, U5, |x: usize| x as u32); model!(u32, U21, |x: usize| x as u32); model!(f32, U7, |x: usize| x as f32); model!(f32, U16, |x: usize| x as f32);
     model!(i64, U5, |x: usize| x as i64); model!(i64, U32, |x: usize| x as i64);
+    (n, fails)
+}
+
+// ---------------------------------------------------------------- C16 -------------------------------------------------
+pub fn sweep_c16(tier: &str, seed: u64) -> (usize, Vec<String>) {
+    use lightmotif::sampler::{SamplerBuilder, SamplerData, SamplerMode};
+    use rand::SeedableRng;
+    let mut rng = Rng::new(seed ^ 0xc16);
+    let mut fails = Vec::new(); let mut n = 0;
+    let runs = if tier == "thorough" { 40 } else { 8 };
+    for run in 0..runs {
+        let width = 2 + rng.below(6);
+        let nseq = 2 + rng.below(8);
+        let lins: Vec<Vec<Nucleotide>> = (0..nseq).map(|_| { let l = width + 1 + rng.below(60); rand_syms::<Dna>(&mut rng, l, run % 3 == 0) }).collect();
+        let striped: Vec<StripedSequence<Dna, U32>> = lins.iter().map(|s| { let mut st: StripedSequence<Dna, U32> = Pipeline::<Dna, _>::generic().stripe(&s[..]); st.configure_wrap(width); st }).collect();
+        let zoops = run % 2 == 1;
+        let steps = if tier == "thorough" { 300 } else { 120 };
+        let case = format!("run={} width={} nseq={} zoops={} lens={:?}", run, width, nseq, zoops, lins.iter().map(|s| s.len()).collect::<Vec<_>>());
+        let r = catch_unwind(AssertUnwindSafe(|| -> Vec<String> {
+            let mut f = Vec::new();
+            let data = SamplerData::new(striped.clone());
+            let mk = |sd: u64| { let mut b = SamplerBuilder::new(&data); b.width(width); if zoops { b.mode(SamplerMode::Zoops).seeds(2.min(nseq)).patience(1000); } b.sample(rand::rngs::StdRng::seed_from_u64(sd)) };
+            let mut s1 = mk(run as u64 + seed);
+            let mut s2 = mk(run as u64 + seed);
+            let check_state = |s: &lightmotif::sampler::Sampler<_, Dna, Vec<StripedSequence<Dna, U32>>, U32>, f: &mut Vec<String>, step: usize| {
+                let act = s.active_sequences(); let starts = s.active_starts();
+                let cm = s.count_matrix();
+                for i in 0..width { for k in 0..5 {
+                    let want = act.iter().zip(starts.iter()).filter(|(z, st)| lins[**z][**st + i].as_index() == k).count() as u32;
+                    if cm.matrix()[i][k] != want { f.push(fail("sampler_state", format!("step {}: motif count [{}][{}] = {} but the windows of the active sequences give {}", step, i, k, cm.matrix()[i][k], want), case.clone())); return; }
+                } }
+                for (z, st) in act.iter().zip(starts.iter()) { if st + width > lins[*z].len() { f.push(fail("sampler_state", format!("step {}: window of sequence {} leaves the sequence", step, z), case.clone())); return; } }
+                // background = normalised symbol counts outside the windows
+                let mut out = [0usize; 5];
+                for (z, st) in act.iter().zip(starts.iter()) { for (p, x) in lins[*z].iter().enumerate() { if p < *st || p >= *st + width { out[x.as_index()] += 1; } } }
+                let tot: usize = out.iter().sum();
+                if tot > 0 { let bg = s.background(); for k in 0..5 { let want = out[k] as f32 / tot as f32; if (bg.frequencies()[k] - want).abs() > 1e-6 { f.push(fail("sampler_state", format!("step {}: background[{}] = {} expected {}", step, k, bg.frequencies()[k], want), case.clone())); return; } } }
+            };
+            check_state(&s1, &mut f, 0);
+            for step in 0..steps {
+                let act_before = s1.active_sequences(); let starts_before = s1.active_starts();
+                let (a, b) = (s1.next(), s2.next());
+                match (a, b) {
+                    (None, None) => break,
+                    (Some(x), Some(y)) => {
+                        if x.z != y.z || x.step != y.step || x.counts != y.counts { f.push(fail("sampler_next", format!("step {}: two runs with the same seed diverge", step), case.clone())); break; }
+                        for i in 0..width { for k in 0..5 {
+                            let want = act_before.iter().zip(starts_before.iter()).filter(|(z, st)| **z != x.z && lins[**z][**st + i].as_index() == k).count() as u32;
+                            if x.counts.matrix()[i][k] != want { f.push(fail("sampler_next", format!("step {}: reported counts [{}][{}] = {} but the alignment without sequence {} gives {}", step, i, k, x.counts.matrix()[i][k], x.z, want), case.clone())); }
+                        } }
+                    }
+                    _ => { f.push(fail("sampler_next", format!("step {}: one run ended, the other did not", step), case.clone())); break; }
+                }
+                check_state(&s1, &mut f, step + 1);
+                if !f.is_empty() { break; }
+            }
+            f
+        }));
+        n += steps;
+        match r { Err(_) => fails.push(fail("sampler", format!("panic at {}", panic_loc()), case)), Ok(f) => fails.extend(f) }
+        if fails.len() > 3 { break; }
+    }
     (n, fails)
 }
